@@ -457,6 +457,8 @@ def check_truth(net, An, R, G, alg, stats, tsuf):
     for p in set(pp for pp, c in An.params):
         delta = max(delta, float(np.linalg.norm(An.approx[p] - nt.truth[p])))
     nonlinear = tsuf != "lin"
+    if R.d > 0:
+        delta = max(delta, xs)        # the corrections of a free network contain the datum motion as well
     if nonlinear:
         # second-order remainder of a single linearisation; heights change by delta^2/2R under a horizontal shift
         # and the vertical of a station is held at the given position: an angular error delta/R over the sight d
@@ -480,7 +482,7 @@ def check_truth(net, An, R, G, alg, stats, tsuf):
             return f
         stats.label("truth.asserted")
         for p, a in adj.items():
-            e = float(np.max(np.abs(a - nt.truth[p])))
+            e = float(np.max(np.abs(a - nt.truth[p] - (5e-6 if gm.MUTATE == "truth_shift" else 0.0))))
             stats.ratio("truth.xyz", e / tol)
             if e > tol:
                 f.append("g3.truth.%s.%s: %s adjusted XYZ differs from the generating one by %.3g m (tolerance %.3g, perturbation %.3g m, cond %.3g)"
@@ -500,10 +502,10 @@ def check_truth(net, An, R, G, alg, stats, tsuf):
             dd = min(float(np.linalg.norm(pos[a] - pos[b])) for a in ps for b in ps if a < b)
             mis = mis * dd
         e = float(np.max(np.abs(mis)))
-        stats.ratio("truth.reproduces_obs", e / (2 * tol))
-        if e > 2 * tol:
+        stats.ratio("truth.reproduces_obs", e / (5 * tol))
+        if e > 5 * tol:
             f.append("g3.truth_free.%s.%s: observation %s %s recomputed from the adjusted coordinates differs from the consistent value by %.3g m (tolerance %.3g)"
-                     % (alg, tsuf, o["t"], [ids[q] for q in gm.obs_points(o)], e, 2 * tol))
+                     % (alg, tsuf, o["t"], [ids[q] for q in gm.obs_points(o)], e, 5 * tol))
             break
     return f
 
@@ -752,13 +754,13 @@ def check_dump_solution(net, An, R, G, D, dump_text, stats):
             f.append("g3.dump.adj_defect.%s: Adj reports defect %s, numpy %d" % (alg, a["defect"], Rd.d))
             continue
         xa, ra = np.array(a["x"], float), np.array(a["r"], float)
-        tol = sl * xs + 1e-9
+        tol = sl * xs + 1e-7 + 1e-12 * float(np.max(np.abs(D["rhs"])))
         e = float(np.max(np.abs(xa - Rd.x)))
         stats.ratio("dump.adj_x", e / tol)
         if not e <= tol:
             f.append("g3.dump.adj_x.%s: Adj solution of the dump differs from numpy by %.3g mm (cond %.3g)" % (alg, e, Rd.cond))
         e = float(np.max(np.abs(ra - Rd.v)))
-        tol = sl * max(vs, xs) + 1e-9
+        tol = sl * max(vs, xs) + 1e-7 + 1e-12 * float(np.max(np.abs(D["rhs"])))
         stats.ratio("dump.adj_r", e / tol)
         if not e <= tol:
             f.append("g3.dump.adj_r.%s: Adj residuals of the dump differ from numpy by %.3g" % (alg, e))
@@ -956,14 +958,15 @@ def _oracle(case, stats):
     if case["mode"] != "perm":
         if D is not None and names:
             fails += check_dump_solution(net, An, R, results[base if len(names) > 1 else names[0]], D, first_raw["pe"], stats)
-    else:
+    elif G0["stats"]["defect"] == R.d:        # (another rank decision of the original run is reported above)
         order = case["order"]
         text2 = gm.write_xml(net, An.net, An.obsval, order=order)
         G2, raw2, fail = run_alg(text2, case["alg"])
         if fail:
             fails.append(fail.replace("g3.crash", "g3.perm_crash"))
         elif G2 is None:
-            fails.append("g3.perm.refused: the permuted input is refused (exit %s): %s" % (raw2["rc"], refused_text(raw2)))
+            fails.append("g3.perm_refused.%s.%s: the permuted input is refused (exit %s), the original is adjusted: %s"
+                         % (case["alg"], "free" if R.d > 0 else "regular", raw2["rc"], refused_text(raw2)))
         else:
             stats.label("perm.compared")
             if order.get("interleave"):
